@@ -1,0 +1,50 @@
+"""
+# References in use
+
+Instances and bundle-instances hand out - and remember - a reference object for every attribute asked of them:
+those the designer connected somewhere, but also those of `hasattr` probes, of `print`s, of misspelt port names,
+and of connections which were replaced since. Only the references which (still) appear in a connection
+of the Module at hand are part of its design.
+"""
+
+from typing import Set
+
+from ...module import Module
+from ...portref import PortRef
+from ...slice import Slice
+from ...concat import Concat
+from ...bundle import BundleRef, AnonymousBundle
+
+
+def used_refs(module: Module) -> Set[int]:
+    """The `id`s of all `PortRef`s and `BundleRef`s which appear in the connections of `module`s instances:
+    as the connection itself, or inside its slices, concatenations and anonymous bundles.
+    A `BundleRef` in use makes the references it was derived from used too."""
+
+    used: Set[int] = set()
+
+    def visit(conn) -> None:
+        if isinstance(conn, PortRef):
+            used.add(id(conn))
+        elif isinstance(conn, BundleRef):
+            while isinstance(conn, BundleRef):
+                used.add(id(conn))
+                conn = conn.parent
+        elif isinstance(conn, Slice):
+            visit(conn.parent)
+        elif isinstance(conn, Concat):
+            for part in conn.parts:
+                visit(part)
+        elif isinstance(conn, AnonymousBundle):
+            for member in conn._namespace.values():
+                visit(member)
+
+    instancelike = (
+        list(module.instances.values())
+        + list(module.instarrays.values())
+        + list(module.instbundles.values())
+    )
+    for inst in instancelike:
+        for conn in inst.conns.values():
+            visit(conn)
+    return used
